@@ -25,6 +25,7 @@ HStr(k, sn, s) == HV(k, 1, 0, sn, s, 0, 0)       \* s is given where the spec pa
 HBool(k, i) == HV(k, 2, i, "", <<>>, 0, 0)
 HDim(k, a, b) == HV(k, 5, 0, "", <<>>, a, b)
 HRel(k, i, a) == HV(k, 6, i, "", <<>>, a, 0)      \* int i + a * (module width of the symbol), resolved by the driver
+HBig(k, i, a) == HV(k, 7, i, "", <<>>, a, 0)      \* int 2^a + i, a >= 40 (beyond TLC's integers; the image cannot exist): resolved by the driver
 HintValues(k) ==
   CASE k = "ERROR_CORRECTION" -> {HV(k, 3, i, "", <<>>, 0, 0) : i \in {0, 1, 2, 3, 7, -1}}
                                    \cup {HStr(k, "L", <<76>>), HStr(k, "H", <<72>>), HStr(k, "X", <<88>>), HStr(k, "", <<>>)}
@@ -33,6 +34,7 @@ HintValues(k) ==
     [] k = "MARGIN" -> {HInt(k, i) : i \in {-200, -95, -67, -51, -21, -5, -1, 0, 1, 4, 100}}
                          \cup {HStr(k, "3", <<51>>), HStr(k, "-3", <<45, 51>>), HStr(k, "x", <<120>>), HStr(k, "", <<>>)}
                          \cup {HRel(k, i, -1) : i \in {-1, 0, 1}}
+                         \cup {HBig(k, 0, 40), HBig(k, 0, 62), HBig(k, 5, 62), HBig(k, -1, 63)}     \* .., 2^63 - 1: the symbol width wraps round
     [] k = "QR_VERSION" -> {HInt(k, i) : i \in {-1, 0, 1, 2, 40, 41}} \cup {HStr(k, "7", <<55>>), HStr(k, "x", <<120>>)}
     [] k = "QR_MASK_PATTERN" -> {HInt(k, i) : i \in {-1, 0, 7, 8}} \cup {HStr(k, "3", <<51>>), HStr(k, "x", <<120>>)}
     [] k = "GS1_FORMAT" -> {HBool(k, 0), HBool(k, 1), HStr(k, "true", <<>>), HStr(k, "x", <<>>)}
